@@ -741,7 +741,10 @@ namespace adept {
 	total = 0;
       }
       else {
-	total.set_value(f.first_value());
+	// Assign rather than set_value so that a statement with no
+	// operations is recorded: the gradient index of "total" may have
+	// been used by an earlier object
+	total = f.first_value();
 	Index n = dims.size();
 	ExpressionSize<E::rank> i(0);
 	ExpressionSize<E::n_arrays> loc(0);
